@@ -142,7 +142,7 @@ class ElectionProfile:
             else:
                 profile.nBallots += multiplier
                 ranking = [rank[0] for rank in ranking] # possibly empty
-                self.ranking = array.array('B' if profile.nCand <= 256 else 'H', ranking)
+                self.ranking = array.array('B' if profile.nCand < 256 else 'H' if profile.nCand < 65536 else 'L', ranking)
 
     def __validate(self):
         "check profile for internal consistency"
